@@ -21,9 +21,18 @@ Definition validate_arguments (valid : str -> bool) (script : bool)
         if interactive_session_obj and hasattr(interactive_session_obj, 'curframe'):
             current_frame = interactive_session_obj.curframe
             frames = f"{co_filename}:{f_lineno}:{_get_qualname(current_frame)}"            *)
-Definition default_frames (fa : frames_arg) (curframe : option frame) : frames_arg :=
+(* re.escape (Python >= 3.7): a backslash before each of  ()[]{}?*+-|^$\.&~# and ASCII whitespace *)
+Definition re_special (c : ch) : bool :=
+  mem_ch c [40; 41; 91; 93; 123; 125; 63; 42; 43; 45; 124; 94; 36; 92; 46; 38; 126; 35; 32; 9; 10; 13; 11; 12]%N.
+Definition re_escape (s : str) : str := flat_map (fun c => if re_special c then [c_bslash; c] else [c]) s.
+
+(* `escaped` = false: the code as it is (known finding C17-N2: the file name is used as a regex);
+   `escaped` = true: the code repaired by fixes/C17N2-*.diff (re.escape(co_filename)).  The harness
+   chooses by the status of C17-N2 in known_findings. *)
+Definition default_frames (escaped : bool) (fa : frames_arg) (curframe : option frame) : frames_arg :=
   match fa, curframe with
-  | FNone, Some f => FStr (f_file f ++ c_colon :: str_of_Z (f_line f) ++ c_colon :: f_qual f)
+  | FNone, Some f => FStr ((if escaped then re_escape (f_file f) else f_file f)
+                           ++ c_colon :: str_of_Z (f_line f) ++ c_colon :: f_qual f)
   | _, _ => fa
   end.
 
@@ -42,10 +51,10 @@ Definition saved := list saved_frame.      (* the int-keyed part of the pickled 
 (* saveframe(filename, frames, variables, exclude_variables) / bin/saveframe main():
    validation, selection and per-variable pickling happen before the file is opened;
    `dump_ok` = pickle.dump of the whole mapping (which holds the exception object) succeeds *)
-Definition saveframe (rx : rx_oracle) (valid : str -> bool) (pk : N -> bool) (script : bool)
+Definition saveframe (rx : rx_oracle) (valid : str -> bool) (pk : N -> bool) (script escaped : bool)
            (fa : frames_arg) (va ea : vars_arg) (curframe : option frame) (e : exn)
            (open_ok dump_ok : bool) (st : fs saved) : res (outcome * saved) * fs saved :=
-  match bind (validate_arguments valid script (default_frames fa curframe) va ea) (fun '(sel, inc, exc) =>
+  match bind (validate_arguments valid script (default_frames escaped fa curframe) va ea) (fun '(sel, inc, exc) =>
              frames_and_info rx pk sel inc exc e) with
   | Err er => (Err er, st)
   | Ok d => let '(o, st') := open_file_and_dump d open_ok dump_ok st in (Ok (o, d), st')
